@@ -895,6 +895,23 @@ def send_oracle(run, case, props):
         if 'C07' in props and not cfg['balance'] and len(p['outs']) != cfg['nout']:
             run.violation('unbalanced:partial-outs outs=%s' % p['outs'], 'a non-balanced publisher skipped an output', summary)
         last = p['mid'] if last is None else max(last, p['mid'])
+    if props & {'C06', 'C03'}:
+        # a frame goes out (push aside) only while somebody is there to take it and every REQUIRED output is connected - judged on
+        # the client table as it stands when the publish happens (the table after the previous item, plus the request of this one)
+        for k, it in enumerate(case['items']):
+            if k == 0 or not any(o[0] == 'P' for o in it[1]) or _in_push_call(case['items'], k) or case['items'][k - 1][2] is None:
+                continue
+            tab = {(c[0], c[1]) for c in case['items'][k - 1][2][1]}
+            raw = it[3]
+            if raw[0] == 'poll' and raw[1] and raw[1]['mid'] > -2:
+                tab.add((raw[1]['cid'], raw[1]['uid']))
+            if raw[0] == 'poll' and raw[1] and raw[1]['mid'] == -3:
+                tab.discard((raw[1]['cid'], raw[1]['uid']))
+            if not tab:
+                run.violation('sender:published-with-empty-table', 'item %d publishes a frame while no client is tracked (the last one had closed)' % k, summary)
+            elif not all(any(c[0] == r for c in tab) for r in cfg['required']):
+                run.violation('sender:published-without-required-output required=%s tracked=%s' % (cfg['required'], sorted(c[0] for c in tab)),
+                              'item %d publishes a frame although a required output is not connected' % k, summary)
     if props & {'C05', 'C06', 'C08'}:
         for it in case['items']:
             if it[3][0] == 'destroy' and not any(o[0] == 'C' for o in it[1]):
